@@ -2748,8 +2748,11 @@ impl Formatter {
       let e = self.expression(element);
       if i == 0 {
         src = format!("{}", e);
-      } else {
+      } else if self.html {
         src = format!("{},{}", src, e);
+      } else {
+        // a space after the comma: `(a.b,c)` would read `.b,c` as a swizzle
+        src = format!("{}, {}", src, e);
       }
     }
     if self.html {
